@@ -25,6 +25,7 @@ loops: 1
 funcs: spiftool_safe_strncpy
 */
 #define VERIF_OWN_STRLEN
+#define VERIF_STRHELP_NOCALL_MSGS      /* see env_strhelp.h: goto-instrument crash work-around */
 #include "vprelude.h"
 #include "env_strhelp.h"
 #include "strings.h"
